@@ -56,7 +56,9 @@ type c12Case struct {
 	ms      *yang.ModSet
 	clash   bool
 	inlined *yang.ModSet // hand-written inline definition (fixed cases); nil: use the source-level expander
+	invalidRefine  string          // the set has a refine that must be refused (what is wrong with it)
 	crossClash     bool            // the clash is between nodes of two modules (namespaces differ)
+	augmentedBy    map[string]string // fixed cases: nodes that a module-level augment introduces, and the module that does
 	inheritedWhens map[string]bool // fixed cases: the when expressions that stand on a uses / augment in the source
 }
 
@@ -93,6 +95,22 @@ func c12Gen(seed int64, idx int) c12Case {
 			yang.S("grouping", "fw-inner2", yang.S("leaf", "fb", yang.S("type", "uint8"))))
 		yang.SortSections(m)
 		c12Shuffle(r, m, true)
+	case 9:
+		// status: a deprecated container uses a deprecated grouping whose nodes use further deprecated groupings,
+		// directly, one and two levels down and inside an augment of the uses.  Every reference is from deprecated
+		// to deprecated, wherever the statements stand in the module.
+		dep := func() *yang.Stmt { return yang.S("status", "deprecated") }
+		str := func(n string) *yang.Stmt { return yang.S("leaf", n, yang.S("type", "string")) }
+		m.Add(yang.S("container", "st-top", dep(), yang.S("uses", "st-outer", yang.S("augment", "sc/sd", yang.S("uses", "st-leafs")))),
+			yang.S("container", "st-top2", yang.S("uses", "st-outer", dep())),
+			yang.S("grouping", "st-outer", dep(), yang.S("container", "sc", yang.S("uses", "st-leafs"), yang.S("container", "sd", str("in-sd"))),
+				yang.S("list", "sl", yang.S("key", "k"), str("k"), yang.S("container", "deep", yang.S("uses", "st-inner")))),
+			yang.S("grouping", "st-inner", dep(), str("si"), yang.S("uses", "st-leafs")),
+			yang.S("grouping", "st-leafs", dep(), yang.S("leaf", "sx", yang.S("type", "int8"))))
+		yang.SortSections(m)
+		if (idx/10)%2 == 1 {
+			c12Shuffle(r, m, true)
+		}
 	case 6:
 		// groupings that define no node (an extension point with a description only, a grouping without a
 		// body): their uses introduces nothing, whatever follows it — further uses, directly or inside the
@@ -112,7 +130,7 @@ func c12Gen(seed int64, idx int) c12Case {
 			c12Shuffle(r, m, true)
 		}
 	case 8:
-		if (idx/10)%5 == 4 {
+		if (idx/10)%6 == 4 {
 			// augments whose target is a choice and that add cases in short form (a data node directly under
 			// the augment), at module level and inside a uses: each added node is a case of its own
 			head := func() *yang.Stmt {
@@ -140,7 +158,33 @@ func c12Gen(seed int64, idx int) c12Case {
 			c.inlined = &yang.ModSet{Mods: []*yang.Stmt{inl}}
 			return c
 		}
-		if (idx/10)%5 == 3 {
+		if (idx/10)%6 == 5 {
+			// a second module augments a choice with nodes in short form: each stands in a case of its own, and that
+			// case is as much a node of the augmenting module as one written out with the case keyword
+			str := func(n string) *yang.Stmt { return yang.S("leaf", n, yang.S("type", "string")) }
+			target := func() *yang.Stmt {
+				return yang.S("module", "fx-ca", yang.S("namespace", "urn:verif:fx-ca"), yang.S("prefix", "ca"),
+					yang.S("container", "top", yang.S("choice", "ch", str("x"), yang.S("case", "named", str("n1")))),
+					yang.S("grouping", "gch", yang.S("choice", "gc", str("g1"))))
+			}
+			aug := func(explicit bool) *yang.Stmt {
+				wrap := func(n *yang.Stmt) *yang.Stmt {
+					if explicit {
+						return yang.S("case", n.Arg, n)
+					}
+					return n
+				}
+				return yang.S("module", "fx-cb", yang.S("namespace", "urn:verif:fx-cb"), yang.S("prefix", "cb"), yang.S("import", "fx-ca", yang.S("prefix", "ca")),
+					yang.S("augment", "/ca:top/ca:ch", wrap(str("sh")), wrap(yang.S("container", "shc", str("y"))), wrap(yang.S("leaf-list", "shl", yang.S("type", "string"))),
+						yang.S("case", "late", str("l1"))),
+					yang.S("container", "user", yang.S("uses", "ca:gch", yang.S("augment", "gc", wrap(str("g2")), wrap(yang.S("list", "g3", yang.S("key", "k"), str("k")))))))
+			}
+			c.ms = &yang.ModSet{Mods: []*yang.Stmt{target(), aug(false)}}
+			c.inlined = &yang.ModSet{Mods: []*yang.Stmt{target(), aug(true)}}
+			c.augmentedBy = map[string]string{"sh": "fx-cb", "shc": "fx-cb", "shl": "fx-cb", "late": "fx-cb", "l1": "fx-cb", "y": "fx-cb"}
+			return c
+		}
+		if (idx/10)%6 == 3 {
 			// context node of a when written on a uses, and on an augment inside that uses whose body
 			// holds a further uses: every introduced node carries the when, to be run on its parent
 			head := func() *yang.Stmt {
@@ -164,7 +208,7 @@ func c12Gen(seed int64, idx int) c12Case {
 			c.inheritedWhens = map[string]bool{"sel = 'a'": true, "sel2 = 'b'": true}
 			return c
 		}
-		if (idx/10)%5 == 2 {
+		if (idx/10)%6 == 2 {
 			// two different groupings named x in disjoint scopes, one reached from the other: x (in a1) uses y,
 			// y contains its own x and uses it.  No grouping refers to itself.
 			head := func() *yang.Stmt {
@@ -205,14 +249,25 @@ func c12Gen(seed int64, idx int) c12Case {
 			yang.S("typedef", "x", yang.S("type", "string", yang.S("length", "1..9"))),
 			yang.S("grouping", "h", yang.S("leaf", "h-of-lib", yang.S("type", "string"))))
 		c.inlined = &yang.ModSet{Mods: []*yang.Stmt{inl, libInl}}
-		if (idx/10)%5 == 1 {
+		if (idx/10)%6 == 1 {
 			c12Shuffle(r, user, true)
 		}
 		return c
 	case 7:
 		// sibling clash introduced by uses / augment
 		c.clash = true
-		switch (idx / 10) % 8 {
+		switch (idx / 10) % 10 {
+		case 8, 9:
+			// a refine that says the same single-valued property twice: written in place, the node would have the
+			// statement twice, which no node may
+			dups := [][3]string{{"x", "default", "1|2"}, {"x", "mandatory", "true|false"}, {"c", "presence", "p1|p2"}, {"c", "config", "true|false"}, {"x", "description", "one|two"},
+				{"li", "min-elements", "1|2"}, {"ll", "max-elements", "3|4"}, {"x", "reference", "r1|r2"}, {"x", "config", "true|true"}, {"li", "max-elements", "2|2"}}
+			d := dups[(idx/100)%len(dups)]
+			vals := strings.Split(d[2], "|")
+			m.Add(yang.S("grouping", "rfg", yang.S("leaf", "x", yang.S("type", "uint8")), yang.S("container", "c", yang.S("leaf", "in-c", yang.S("type", "string"))),
+				yang.S("list", "li", yang.S("key", "k"), yang.S("leaf", "k", yang.S("type", "string"))), yang.S("leaf-list", "ll", yang.S("type", "string"))),
+				yang.S("container", "rf-use", yang.S("uses", "rfg", yang.S("refine", d[0], yang.S(d[1], vals[0]), yang.S(d[1], vals[1])))))
+			c.invalidRefine = fmt.Sprintf("two-%s-statements-in-one-refine", d[1])
 		case 7:
 			// an augment from another module adds a node named like a child of its target: the names differ by
 			// namespace, so this is refused or both nodes exist — the target's own child is never replaced
@@ -357,7 +412,11 @@ func (p *c12) Run(tier string, seed int64, idx int) core.CaseResult {
 		}
 		if fr.Accepted() {
 			cls := "C12/sibling-clash-accepted"
-			if k := (idx / 10) % 8; k >= 3 && k <= 6 {
+			if c.invalidRefine != "" {
+				res.Fail("C12/invalid-refine-accepted/"+c.invalidRefine, input, "written in place the node would carry the statement twice; the refine compiled")
+				return res
+			}
+			if k := (idx / 10) % 10; k >= 3 && k <= 6 {
 				// reference-side class: the clash is between a choice and a data node
 				cls += "/choice-and-data-node"
 			}
@@ -367,7 +426,7 @@ func (p *c12) Run(tier string, seed int64, idx int) core.CaseResult {
 	}
 	inl, info := yang.Inline(c.ms)
 	if c.inlined != nil {
-		inl, info = c.inlined, &yang.Inliner{NUses: 3, NRefines: 1, NUsesAugments: 1, InheritedWhens: c.inheritedWhens}
+		inl, info = c.inlined, &yang.Inliner{NUses: 3, NRefines: 1, NUsesAugments: 1, InheritedWhens: c.inheritedWhens, AugmentedBy: c.augmentedBy}
 		res.Ev("fixed_pairs_with_hand_written_inline_definition", 1)
 	}
 	if len(info.Errs) > 0 {
